@@ -138,19 +138,24 @@ theorem RQR.roundTrip_plain (m : RQR) : m.roundTrip {} = m := by
   cases m
   simp [RQR.roundTrip, throughWire]
 
-/-- The kind the leader infers is the kind the follower sent, provided the tags of the
-    discriminating fields do not drop them: `Fields` and `Key` neither `omitempty` nor `-`
-    (an empty field list / a key with zero dims must stay non-nil), `Row` and `EndOfResults`
-    not `-` (`omitempty` on a pointer or a bool only drops nil / false, which decode as nil /
-    false anyway).  Holds for EVERY message the follower sends, empty-key rows included. -/
+/-- The kind the leader infers is the kind the follower sent, provided the leader reads
+    `Error` before it leaves its loop on `EndOfResults`, and the tags of the discriminating
+    fields do not drop them: `Fields` and `Key` neither `omitempty` nor `-` (an empty field
+    list / a key with zero dims must stay non-nil), `Row`, `EndOfResults` and `Error` not `-`
+    (`omitempty` on a pointer, bool or string only drops nil / false / "", which decode as
+    nil / false / "" anyway).  Holds for EVERY message the follower sends: empty-key rows,
+    and final messages that carry an error. -/
 theorem leaderKind_roundTrip (t : RQRTags)
     (hf : t.fields.omitEmpty = false ∧ t.fields.skip = false)
     (hk : t.key.omitEmpty = false ∧ t.key.skip = false)
-    (hr : t.row.skip = false) (he : t.endOfResults.skip = false)
+    (hr : t.row.skip = false) (he : t.endOfResults.skip = false) (hx : t.error.skip = false)
     (s : Sent) (unflat : Bool)
     (hq : match s with | .unflatRow _ _ => unflat = true | .flatRow _ => unflat = false | _ => True) :
-    leaderKind s.first unflat (s.msg.roundTrip t) = s.kind := by
-  cases s <;>
-    simp_all [leaderKind, Sent.first, Sent.msg, Sent.kind, RQR.roundTrip, throughWire, emptyOpt]
+    leaderKind true s.first unflat (s.msg.roundTrip t) = s.kind := by
+  cases s with
+  | endOfResults st e =>
+      by_cases hE : e = "" <;>
+        simp_all [leaderKind, Sent.first, Sent.msg, Sent.kind, RQR.roundTrip, throughWire, emptyOpt]
+  | _ => simp_all [leaderKind, Sent.first, Sent.msg, Sent.kind, RQR.roundTrip, throughWire, emptyOpt]
 
 end Zeno
